@@ -69,6 +69,11 @@ package redisemu
 //@ modifies signalListTuple objectWaitList.queueHead objectWaitList.queueTail wakeSignal.objectsHead wakeSignal.objectsTail map
 //@ ensures [C11] left.all: ws.objectsHead == nil
 
+// calls of waitTable.unblock and the key of the last one
+//@ ghost gTableUnblocks int
+//@ ghost gTableUnblockKey string
+//@ ghost gTableUnblockN int
+
 // a push of n elements wakes at most n waiters, each taken from the head of the key's queue
 //@ ghost gWakes int
 //@ func waitTable.unblock
@@ -83,11 +88,17 @@ package redisemu
 //@ loop 1 invariant list != nil
 //@ use waitTable.unlinkWakeSignal.*
 //@ ghostentry gWakes = 0
+//@ ghostentry gTableUnblocks = gTableUnblocks + 1
+//@ ghostentry gTableUnblockKey = name
+//@ ghostentry gTableUnblockN = elements
 //@ ghostafter "ws.ready <- struct{}{}" : gWakes = gWakes + 1
+// the signal remembers which key raised it (a waiter that leaves without looking hands the wake-up on for that key)
+//@ assertbefore "ws.ready <- struct{}{}" [C11] raiser.recorded: ws.raisedBy == name
 //@ assertbefore "wt.unlinkWakeSignal(ws)" [C11] head.first: ref == list.queueHead && ref != nil && ws == ref.signal
 //@ assertbefore "ws.ready <- struct{}{}" [C11] left.queues: ws.objectsHead == nil
 //@ loop 1 invariant [C11] count: gWakes == i && 0 <= i && (elements >= 0 ==> i <= elements)
-//@ modifies signalListTuple objectWaitList.queueHead objectWaitList.queueTail wakeSignal.objectsHead wakeSignal.objectsTail map ghost.gWakes
+//@ modifies signalListTuple objectWaitList.queueHead objectWaitList.queueTail wakeSignal.objectsHead wakeSignal.objectsTail wakeSignal.raisedBy map ghost.gWakes ghost.gTableUnblocks ghost.gTableUnblockKey ghost.gTableUnblockN
+//@ ensures [C11] counted: gTableUnblocks == old(gTableUnblocks) + 1 && gTableUnblockKey == name && gTableUnblockN == elements
 //@ ensures [C11] at.most: gWakes >= 0 && (elements >= 0 ==> gWakes <= elements)
 
 //@ func newWakeSignal
@@ -107,3 +118,20 @@ package redisemu
 //@ modifies objectWaitList wakeSignal.objectsHead wakeSignal.objectsTail signalListTuple.queueNext signalListTuple.objectsNext map global.signals alloc
 //@ ensures [C11] queued: ws != nil && haskey(wt.table, name) && wt.table[name] != nil && wt.table[name].queueTail != nil && wt.table[name].queueTail.signal == ws && wt.table[name].queueTail.queueNext == nil
 //@ ensures [C11] registered: ws.objectsHead != nil && ws.objectsHead == wt.table[name].queueTail
+
+// C11: a client that was woken for a push but leaves without having looked at
+// the list (its timeout or an unblock won the race) hands the wake-up to the
+// next client waiting for that key; otherwise that client would stay blocked
+// on a non-empty list
+//@ func waitTable.disposeWakeSignal
+//@ prop C11
+//@ safetyprop none
+//@ mode int
+//@ requires wt != nil && wt.table != nil && ws != nil
+//@ requires free wf.queues: forall q *objectWaitList :: queueWF(q)
+//@ requires free wf.signals: forall w *wakeSignal :: signalWF(w)
+//@ requires free wf.table: forall k string :: haskey(wt.table, k) ==> wt.table[k] != nil
+//@ use waitTable.unlinkWakeSignal.*
+//@ modifies signalListTuple objectWaitList.queueHead objectWaitList.queueTail wakeSignal.objectsHead wakeSignal.objectsTail wakeSignal.raisedBy map ghost.gWakes ghost.gTableUnblocks ghost.gTableUnblockKey ghost.gTableUnblockN
+//@ assertbefore "close(ws.ready)" [C11] handed.on: pending ==> gTableUnblocks == old(gTableUnblocks) + 1 && gTableUnblockKey == old(ws.raisedBy) && gTableUnblockN == 1
+//@ assertbefore "close(ws.ready)" [C11] only.pending: !pending ==> gTableUnblocks == old(gTableUnblocks)
